@@ -8,7 +8,8 @@ from .models import deref, d1, unguard, It
 class Hang(BoundExceeded): pass
 
 class Chan:
-    def __init__(self): self.q = []; self.head = 0; self.senders = 1; self.receivers = 1; self.sent = 0
+    def __init__(self, cap=None): self.q = []; self.head = 0; self.senders = 1; self.receivers = 1; self.sent = 0; self.cap = cap
+    def full(self): return self.cap is not None and len(self.q) - self.head >= self.cap
 class SenderObj:
     def __init__(self, ch): self.ch = ch; self.alive = True
     def on_drop(self, e):
@@ -35,12 +36,37 @@ def _unbounded(e, c, a):
     ch = Chan()
     e.hooks.setdefault('channels', []).append(ch)
     return Struct([SenderObj(ch), ReceiverObj(ch)])
+@lmodel('bounded', 'crossbeam_channel::bounded')
+def _bounded(e, c, a):
+    ch = Chan(cap=e.concretize(a[0]))
+    e.hooks.setdefault('channels', []).append(ch)
+    return Struct([SenderObj(ch), ReceiverObj(ch)])
 @lmodel('Sender::send')
 def _send(e, c, a):
     s = unguard(a[0])
     if s.ch.receivers == 0: return Err(Struct([a[1]]))
+    if s.ch.full():
+        # a blocking send on a full bounded channel waits for the consumer: the harness schedules the consumer now
+        h = e.hooks.get('chan_full')
+        if h is not None: h(e, s.ch)
+        if s.ch.full(): raise Hang('send() on a full bounded channel and no consumer makes room: blocks forever')
     s.ch.q.append(a[1]); s.ch.sent += 1
     return Ok(UNIT)
+@lmodel('Sender::try_send')
+def _try_send(e, c, a):
+    s = unguard(a[0])
+    if s.ch.receivers == 0: return Err(Enum('Disconnected', [a[1]], 'TrySendError'))
+    if s.ch.full(): return Err(Enum('Full', [a[1]], 'TrySendError'))
+    s.ch.q.append(a[1]); s.ch.sent += 1
+    return Ok(UNIT)
+@lmodel('Sender::is_full')
+def _is_full(e, c, a): return unguard(a[0]).ch.full()
+@lmodel('Sender::len')
+def _slen(e, c, a):
+    ch = unguard(a[0]).ch; return len(ch.q) - ch.head
+@lmodel('Sender::is_empty')
+def _sis_empty(e, c, a):
+    ch = unguard(a[0]).ch; return ch.head >= len(ch.q)
 def next_visible(e, ch):
     """is the next queued message already visible to the polling thread?  A harness may make this a symbolic
     condition (hooks['chan_cut'](e, ch) -> z3 Bool): the poll then sees an arbitrary prefix of what was sent."""
